@@ -173,6 +173,29 @@ def run(ctx, eng):
     ctx.ob('ORD.gate', fi.qual, 'no push on pushed (even) streams', ok,
            'ProtocolError for an even parent before the promised stream is '
            'allocated', node=fi.node)
+    # "succeeds exactly when": push_stream itself refuses for these two
+    # reasons and no other (everything else is the two state machines, the
+    # lookup and header validation in the callees)
+    extra = []
+    for p in paths:
+        r = cm.explicit_raise(p)
+        if r is None or r.frame != fi.qual:
+            continue
+        pol, _ = setting_gate(p, 'remote_settings')
+        even = any(e.kind == 'assume' and
+                   parity_fact(e.cond, 'stream_id') == 'even'
+                   for e in p.events)
+        if pol is False or even:
+            continue
+        extra.append('%s under %s' % (
+            '/'.join(sorted(p.exc['names'])), '; '.join(
+                cm.show0(e.cond)[:60] for e in p.events
+                if e.kind == 'assume' and e.frame == fi.qual)[-160:]))
+    ctx.ob('ORD.gates', fi.qual, 'push_stream has no refusal of its own '
+           'beyond push-disabled and pushed-parent', not extra,
+           '; '.join(sorted(set(extra)))[:300] or 'the only raise statements '
+           'of push_stream are the enable_push and the parity refusal',
+           node=fi.node)
     # the parent is looked up before anything that depends on its id is
     # refused: a parent that is gone is reported as gone (StreamClosedError /
     # NoSuchStreamError, C29), whatever its parity
@@ -339,6 +362,13 @@ def run(ctx, eng):
                'a promised id is held to the same rules on both ends: no '
                'larger than 2**31-1 whether we chose it or read it off the '
                'wire (the promised-id word is not masked by the parser)')
+    cm.include(ctx, eng, 'C06',
+               {('FSM.api-gates', 'push_stream'),
+                ('FSM.api-gates', '_receive_push_promise_frame')},
+               'push_stream succeeds exactly when the listed conditions '
+               'hold: a promise reserves a stream and opens none, so neither '
+               'MAX_CONCURRENT_STREAMS nor a window may refuse it (RFC 7540 '
+               '8.2.2)')
     cm.include(ctx, eng, 'C11', {'FLOW.queue', 'FLOW.ack-source'},
                'the client allows push = the ENABLE_PUSH value the peer has '
                'acknowledged: one queued value per update, one popped per '
